@@ -361,3 +361,26 @@ Fixpoint c03_run (chk legacy : bool) (st : c03_state) (ops : list c03_op) : c03_
   | op :: r => let '(st', o) := c03_step chk legacy st op in
                let '(st'', os) := c03_run chk legacy st' r in (st'', o :: os)
   end.
+
+(* ---- audit 2, kind A: assignment onto a target that already holds OTHER state.
+   ParallelIndexSet has implicit copy / move assignment: member-wise over localIndices_, newIndices_, state_, seqNo_,
+   deletedEntries_ (ArrayList::operator= builds a deep copy of the source and moves it over the target).  The harness op `c:w`
+   builds a target in configuration w/2 with the histories below, assigns the current set to it (w even: copy, w odd: move)
+   and CONTINUES THE HISTORY ON THE TARGET.
+     0: fresh   1: nine pairs over several chunks, two completed phases   2: as 1 plus an UNFINISHED resize phase with two
+     pending adds and a deletion mark   3: as 1, then everything deleted again (emptied lists with consumed chunks) *)
+Definition c03_dirty_pairs : list c03_op :=
+  map (fun j : nat => C03Add (1000 + 7 * Z.of_nat j) (50 + N.of_nat j) (N.of_nat (j mod 3)) (Nat.odd j)) (seq 0 9).
+Definition c03_dirty_ops (cfg : N) : list c03_op :=
+  match cfg with
+  | 0 => []
+  | 1 => [C03Begin] ++ c03_dirty_pairs ++ [C03End; C03Begin; C03End]
+  | 2 => [C03Begin] ++ c03_dirty_pairs ++ [C03End; C03Begin; C03End; C03Begin; C03Add (-77) 5 1 true; c03_add_default 2000; C03MarkDeleted 0]
+  | _ => [C03Begin] ++ c03_dirty_pairs ++ [C03End; C03Begin; C03End; C03Begin] ++ map C03MarkDeleted (seq 0 9) ++ [C03End]
+  end%N.
+Definition c03_dirty (cfg : N) : c03_state := fst (c03_run true false c03_init (c03_dirty_ops cfg)).
+
+(* target = source: every member of the target is replaced by the source's *)
+Definition c03_assign (target source : c03_state) : c03_state :=
+  let '(C03State _ _ _ _ _) := target in
+  C03State (c03_resize source) (c03_local source) (c03_fresh source) (c03_seq source) (c03_deleted source).
